@@ -60,7 +60,7 @@ def rebuild(e, f):
     if k in ('cast', 'icast'):
         return f((k, e[1], rebuild(e[2], f)))
     if k in ('arrow', 'dot'):
-        return f((k, rebuild(e[1], f), e[2]))
+        return f((k, rebuild(e[1], f), e[2]) + tuple(e[3:]))
     if k == 'call':
         return f((k, rebuild(e[1], f), tuple(rebuild(a, f) for a in e[2])))
     if k in ('bin', 'assign'):
@@ -300,6 +300,8 @@ def canon(e, rename=None):
             return ('param', x[2]) if x[2] >= 0 else x
         if k == 'zero':
             return ('int', 0)
+        if k in ('arrow', 'dot'):
+            return x[:3]
         if k == 'bin':
             op, a, b = x[1], x[2], x[3]
             if op in ('>', '>='):
